@@ -18,12 +18,16 @@ ALL = PLAIN + CONFIGS
 # non-ASCII text, trailing blanks — "leaving prior content of that file intact as a prefix" is about BYTES
 UNRELATED = {
     "setup.cfg": ["[metadata]\nname = demo\n", "[metadata]\nname = demo", "[bumpversion]\ncurrent_version = 0.1.0\ncommit = True\n", "[flake8]\nmax-line-length = 100\n\n\n",
-                  "[metadata]\r\nname = demo\r\n", "[metadata]\r\nname = d\u00e9mo \u2713\r\ndescription = x", "[metadata]\nname = demo\r\n\n[flake8]\rmax-line-length = 100\r", "[metadata]\nname = demo \t\n \n"],
+                  "[metadata]\r\nname = demo\r\n", "[metadata]\r\nname = d\u00e9mo \u2713\r\ndescription = x", "[metadata]\nname = demo\r\n\n[flake8]\rmax-line-length = 100\r", "[metadata]\nname = demo \t\n \n",
+                  # mentions of bumpver that are NOT a bumpver section with a current_version
+                  "[options.extras_require]\ndev =\n    bumpver\n# configured in [bumpver] of bumpver.toml\n", "[tox:tox]\nenvlist = bumpver\n\n[testenv:bumpver]\ndeps = bumpver\n"],
     "pyproject.toml": ['[build-system]\nrequires = ["setuptools>=40"]\n', '[tool.black]\nline-length = 100', '[project]\nname = "demo"\nversion = "0.1.0"\n\n',
-                       '[build-system]\r\nrequires = ["setuptools>=40"]\r\n', '[tool.black]\r\nline-length = 100', '[project]\nname = "d\u00e9mo"\r\nversion = "0.1.0"\n'],
-    "bumpver.toml": ['[other]\nkey = 1\n', '# nothing here yet', 'title = "current_version of nothing"\n', '[other]\r\nkey = 1\r\n', '# nothing here yet\r'],
-    ".bumpver.toml": ['[other]\nkey = 1\n', '# nothing here yet\n', '[other]\r\nkey = 1\r\n'],
-    "pycalver.toml": ['[other]\nkey = 1\n', 'x = "pycalver"', '[other]\r\nkey = 1\r\n'],
+                       '[build-system]\r\nrequires = ["setuptools>=40"]\r\n', '[tool.black]\r\nline-length = 100', '[project]\nname = "d\u00e9mo"\r\nversion = "0.1.0"\n',
+                       '[tool.hatch.envs.bumpver]\ndependencies = ["bumpver"]\n', '[tool.poetry]\nversion = "0.1.0"\n# current_version lives in setup.cfg\n'],
+    "bumpver.toml": ['[other]\nkey = 1\n', '# nothing here yet', 'title = "current_version of nothing"\n', '[other]\r\nkey = 1\r\n', '# nothing here yet\r',
+                     '# the configuration is the [tool.bumpver] table of pyproject.toml\n'],
+    ".bumpver.toml": ['[other]\nkey = 1\n', '# nothing here yet\n', '[other]\r\nkey = 1\r\n', '# see [tool.bumpver] in pyproject.toml\n'],
+    "pycalver.toml": ['[other]\nkey = 1\n', 'x = "pycalver"', '[other]\r\nkey = 1\r\n', '# [pycalver] is deprecated, see setup.cfg\n'],
 }
 OLD_VERSION = "2020.1001-alpha"
 SECTION = {
@@ -199,20 +203,20 @@ def run(chk, driver, tier):
                          "ops init_pick/init_text/init on the same contents; quick tier: the 256 existence patterns once each + 100 sampled worlds")
     if tier == "thorough":
         chk.exhaustive = True
-        run_worlds(chk, driver, worlds, lambda i: [i % 8, (i // 8 + 1) % 8] if i % 7 == 0 else [i % 8])
+        run_worlds(chk, driver, worlds, lambda i: [i % 10, (i // 10 + 1) % 10] if i % 7 == 0 else [i % 8])
     else:
         # every subset of files at least once (content kinds sampled), plus a random sample of full worlds
         by_subset = {}
         for w in worlds:
             by_subset.setdefault(tuple(st != "absent" for st in w.values()), []).append(w)
         sample = [rng.choice(ws) for ws in by_subset.values()] + rng.sample(worlds, 100)
-        run_worlds(chk, driver, sample, lambda i: [i % 8])
+        run_worlds(chk, driver, sample, lambda i: [i % 10])
     return []
 
 
 def search(chk, driver, tier):
     worlds = list(all_worlds())
-    run_worlds(chk, driver, worlds, lambda i: [i % 8])
+    run_worlds(chk, driver, worlds, lambda i: [i % 10])
 
 
 def replay(payload):
